@@ -26,10 +26,11 @@ Proof.
   c3 f1 a b Hab; c3 f2 a b Hab; c3 b f1 f2 H12; c3 a f1 f2 H12; try lra; nra.
 Qed.
 
-Lemma contrib_tele f0 f1 f2 a b : f0 <= f1 -> f1 <= f2 -> a <= b ->
+Lemma contrib_tele f0 f1 f2 a b : f0 <= f1 -> f1 <= f2 -> f0 < f2 -> a <= b ->
   contrib f0 f1 f2 a b = slope ((f2 - f0) * (f1 - f0)) * (G1 f0 f1 b - G1 f0 f1 a) + slope ((f2 - f0) * (f2 - f1)) * (G2 f1 f2 b - G2 f1 f2 a).
 Proof.
-  intros H01 H12 Hab. unfold contrib.
+  intros H01 H12 H02 Hab. unfold contrib.
+  destruct (eqb f0 f2) eqn:FL; [bools; lra|].
   pose proof (term1_tele f0 f1 a b H01 Hab) as T1. pose proof (term2_tele f1 f2 a b H12 Hab) as T2.
   destruct (ltb b f0 || ltb f2 a) eqn:GU.
   - (* the guard only fires where both telescoped differences vanish *)
@@ -45,20 +46,20 @@ Fixpoint sorted_from (e0 : R) (edges : list R) : Prop :=
   match edges with [] => True | e1 :: rest => e0 <= e1 /\ sorted_from e1 rest end.
 Fixpoint last_of (e0 : R) (edges : list R) : R := match edges with [] => e0 | e1 :: rest => last_of e1 rest end.
 
-Lemma total_tele f0 f1 f2 : f0 <= f1 -> f1 <= f2 -> forall edges e0, sorted_from e0 edges ->
+Lemma total_tele f0 f1 f2 : f0 <= f1 -> f1 <= f2 -> f0 < f2 -> forall edges e0, sorted_from e0 edges ->
   total f0 f1 f2 e0 edges = slope ((f2 - f0) * (f1 - f0)) * (G1 f0 f1 (last_of e0 edges) - G1 f0 f1 e0)
                           + slope ((f2 - f0) * (f2 - f1)) * (G2 f1 f2 (last_of e0 edges) - G2 f1 f2 e0).
 Proof.
-  intros H01 H12. induction edges as [|e1 rest IH]; intros e0 S; cbn [total last_of].
+  intros H01 H12 H02. induction edges as [|e1 rest IH]; intros e0 S; cbn [total last_of].
   - unfold of_Z. lra.
-  - destruct S as [S1 S2]. rewrite (IH e1 S2), (contrib_tele f0 f1 f2 e0 e1 H01 H12 S1). lra.
+  - destruct S as [S1 S2]. rewrite (IH e1 S2), (contrib_tele f0 f1 f2 e0 e1 H01 H12 H02 S1). lra.
 Qed.
 
 (* conservation: the bins cover [f0, f2] and the triangle is not flat *)
 Lemma tent_conserves_l f0 f1 f2 e0 edges : f0 <= f1 -> f1 <= f2 -> f0 < f2 -> sorted_from e0 edges -> e0 <= f0 -> f2 <= last_of e0 edges ->
   total f0 f1 f2 e0 edges = 1.
 Proof.
-  intros H01 H12 H02 S L U. rewrite (total_tele f0 f1 f2 H01 H12 edges e0 S).
+  intros H01 H12 H02 S L U. rewrite (total_tele f0 f1 f2 H01 H12 H02 edges e0 S).
   set (eK := last_of e0 edges) in *.
   assert (A1: G1 f0 f1 eK = sqn (f1 - f0) / 2) by (unfold G1, clamp; change (minn (maxn eK f0) f1) with (clipn eK f0 f1); unfold sqn; c3 eK f0 f1 H01; try lra; nra).
   assert (A0: G1 f0 f1 e0 = 0) by (unfold G1, clamp; change (minn (maxn e0 f0) f1) with (clipn e0 f0 f1); unfold sqn; c3 e0 f0 f1 H01; try lra; nra).
@@ -72,9 +73,18 @@ Proof.
   - field. split; nra.
 Qed.
 
-(* a flat triangle (three equal frequencies) deposits nothing, whatever the bins: the defect recorded as C13-F13 *)
-Lemma flat_zero f a b : contrib f f f a b = 0.
+(* a flat triangle (three equal frequencies) is a delta function: its whole weight goes in the one bin [a, b) that holds the frequency *)
+Lemma flat_contrib f a b : contrib f f f a b = if leb a f && ltb f b then 1 else 0.
+Proof. unfold contrib, eqb, of_Z. destruct (Req_EM_T f f) as [_|N]; [reflexivity|contradiction]. Qed.
+Lemma flat_zero_after f : forall edges e0, sorted_from e0 edges -> f < e0 -> total f f f e0 edges = 0.
 Proof.
-  unfold contrib, slope, eqb, of_Z. replace ((f - f) * (f - f)) with 0 by ring. destruct (Req_EM_T 0 0) as [_|N]; [|contradiction].
-  destruct (ltb b f || ltb f a); lra.
+  induction edges as [|e1 rest IH]; intros e0 S L; cbn [total]; [unfold of_Z; lra|]. destruct S as [S1 S2].
+  rewrite flat_contrib, (IH e1 S2 ltac:(lra)). destruct (leb e0 f) eqn:E; bools; cbn [andb]; lra.
+Qed.
+Lemma flat_conserves_l f : forall edges e0, sorted_from e0 edges -> e0 <= f -> f < last_of e0 edges -> total f f f e0 edges = 1.
+Proof.
+  induction edges as [|e1 rest IH]; intros e0 S L U; cbn [total last_of] in *; [lra|]. destruct S as [S1 S2]. rewrite flat_contrib.
+  destruct (leb e0 f) eqn:E; bools; [|lra]. destruct (ltb f e1) eqn:E2; bools; cbn [andb].
+  - rewrite (flat_zero_after f rest e1 S2 E2). lra.
+  - rewrite (IH e1 S2 E2 U). lra.
 Qed.
